@@ -15,7 +15,6 @@ import json
 import os
 
 from checks.c16 import (FIXED_XML, XML_URI, XMLNS_URI, build_all, build_cases, doc_from_json, elements_preorder,
-                        fewer_findings, tags_from_tokens,
                         merge_text, parse_tokens, parse_tree, run_impl, sections, show_tokens, strip_doctype_ids,
                         tolerated_fix)
 
@@ -164,16 +163,6 @@ def classify(tree1, ser, diff):
     # the declaring serializer writes the same characters, yet the tree changed: a lexical problem
     _, a, b, prev = diff
     kind = (a or b)[0]
-    if kind == "X" and a and a[0] == "X" and a[1].startswith("\ufeff") and prev and prev[0] == "E" and prev[3] == "script":
-        # DESIGN 6.3 row 1': the tokenizer repeats its BOM check on the feed that follows a </script> pause
-        if (b and b[0] == "X" and b[1] == a[1][1:]) or (a[1] == "\ufeff" and (b is None or b[0] != "X")):
-            return ["C17:reparse-drops-bom-after-script-end-tag"]
-    if kind == "E" and a and b and a[:4] == b[:4]:
-        # same element, attributes lost on re-parse: the tokenizer's duplicate test (DESIGN 6.3 row 8) compares the raw
-        # name of an unprefixed attribute with the LOCAL part of the xmlns:<prefix> declaration written before it
-        lost = [x for x in a[4] if x not in b[4]]
-        if lost and [x for x in a[4] if x in b[4]] == b[4] and all(x[0] is None and x[2] == a[1] for x in lost):
-            return ["C17:reparse-drops-attribute-by-raw-vs-local-duplicate-test"]
     return ["C17:unexplained-%s-node" % kind]
 
 
@@ -267,16 +256,8 @@ def run(ck):
                 problems.append("serialization")
         m2 = sections(tok2_out[i])
         if m2.get("TREE") != sec["TREE2"] or m2.get("ERRS") != sec["ERRS2"].split()[1]:
-            fixed = None
-            if m2.get("TREE") is not None:
-                fixed = fewer_findings(tags_from_tokens(parse_tokens(sec["TOKS2"])), parse_tree(sec["TREE2"]),
-                                       parse_tree(m2["TREE"]))
-            if fixed:
-                tolerated_fix(ck, fixed + " (second parse)")
-            else:
-                problems.append("second tree")
-        tags_ok = "tags_ok=1" in m.get("FLAGS", "")     # written tags outside the C16 classes (pinned tokenizer stage)
-        if not problems and tags_ok and not has_cr_or_nul(tree1) and plain_uris(tree1) and "\ufeff" not in ser:
+            problems.append("second tree")
+        if not problems and not has_cr_or_nul(tree1) and plain_uris(tree1):
             # what the model says the items are lexed into == what the tokenizer really delivered
             stats["denotation_compared"] += 1
             want = merge_text([t for t in parse_tokens(sec["TOKS2"]) if t[0] != "Z"])
@@ -285,29 +266,24 @@ def run(ck):
             if show_tokens(want) != show_tokens(got):
                 problems.append("item denotation")
         # ---- tested (not proved) model statements: clean => adequate (proved, sanity) and
-        #      clean & every written tag outside the C16 classes => the token-level round trip holds
+        #      rt_hyps => the token-level round trip holds (proved) and the implementation keeps the tree
         fl = dict(kv.split("=") for kv in m.get("FLAGS", "").split())
         if fl:
             stats["model_clean"] = stats.get("model_clean", 0) + (fl["clean"] == "1")
             if fl["clean"] == "1" and fl["adequate"] != "1":
                 problems.append("model: ser_clean but not adequate")
-            if fl["clean"] == "1" and fl["tags_ok"] == "1":
-                stats["model_roundtrip_expected"] = stats.get("model_roundtrip_expected", 0) + 1
-                if fl["roundtrip"] != "1":
-                    problems.append("model: clean, tags ok, but the token-level round trip fails")
             if fl.get("hyps") == "1":
                 # the hypotheses of C17_roundtrip_partial hold for this parsed tree: the theorem applies
                 stats["theorem_applies"] = stats.get("theorem_applies", 0) + 1
                 if fl["roundtrip"] != "1":
                     problems.append("model: rt_hyps holds but the token-level round trip fails (contradicts the theorem)")
-            elif fl["clean"] == "1" and fl["tags_ok"] == "1" and nel > 0:
-                # parsed, clean, tags ok - and still outside the theorem's shape conditions?
+                if not ok and not has_cr_or_nul(tree1) and plain_uris(tree1) and not problems:
+                    problems.append("implementation loses a tree the model calls clean")
+            elif fl["clean"] == "1" and nel > 0:
+                # parsed and clean - and still outside the theorem's shape conditions?
                 stats["clean_but_shape_fails"] = stats.get("clean_but_shape_fails", 0) + 1
             if fl["clean"] != "1" and ok and not problems:
                 stats["flagged_but_roundtrips"] = stats.get("flagged_but_roundtrips", 0) + 1
-            if fl["clean"] == "1" and fl["tags_ok"] == "1" and not ok and not has_cr_or_nul(tree1) and plain_uris(tree1) \
-                    and "\ufeff" not in ser and not problems:
-                problems.append("implementation loses a tree the model calls clean")
         if problems:
             if "serialization" in problems and ok:
                 # the pinned model loses the tree on this input (declarations at token level, CR / raw URI at
